@@ -2,6 +2,7 @@
 import ast
 
 from ..core import astutil as A
+from ..core import match as M
 from ..core.model import dotted
 
 META = {
@@ -12,6 +13,43 @@ META = {
 MOD = "pkgcore.fs.contents"
 
 
+def _dict_keys(fn):
+    """(key-expression, access-node) for every keyed access to contentsSet._dict (or a local alias of it) in fn"""
+    aliases = {"self._dict"} | {t.id for t, v, _ in A.assignments(fn) if isinstance(t, ast.Name) and A.unparse(v) == "self._dict"}
+    keys = []
+    for n in A.walk(fn):
+        if isinstance(n, ast.Subscript) and A.unparse(n.value) in aliases:
+            keys.append((n.slice, n))
+        elif isinstance(n, ast.Call) and isinstance(n.func, ast.Attribute) and A.unparse(n.func.value) in aliases and n.func.attr in ("pop", "get", "setdefault", "__contains__") and n.args:
+            keys.append((n.args[0], n))
+        elif isinstance(n, ast.Compare) and len(n.ops) == 1 and isinstance(n.ops[0], (ast.In, ast.NotIn)) and A.unparse(n.comparators[0]) in aliases:
+            keys.append((n.left, n))
+    return keys
+
+
+def _binder_iter(node, name):
+    """the iterable of the innermost comprehension / for loop around `node` that binds `name`, else None"""
+    for p in A.parents(node):
+        if isinstance(p, (ast.GeneratorExp, ast.ListComp, ast.SetComp, ast.DictComp)):
+            for g in p.generators:
+                if isinstance(g.target, ast.Name) and g.target.id == name:
+                    return g.iter
+        elif isinstance(p, (ast.For, ast.AsyncFor)) and isinstance(p.target, ast.Name) and p.target.id == name:
+            return p.iter
+        elif isinstance(p, A.SCOPE_TYPES):
+            return None
+    return None
+
+
+def _resolved(fn, e):
+    """source of `e`, looking through a local that is assigned exactly once (``npf = normpath``)"""
+    if isinstance(e, ast.Name):
+        vals = [v for t, v, _ in A.assignments(fn.node, e.id)]
+        if len(vals) == 1 and not isinstance(vals[0], ast.AugAssign):
+            return A.unparse(vals[0])
+    return A.unparse(e)
+
+
 def run(ctx):
     P = ctx.program
     ctx.explanation = META["level"]
@@ -19,33 +57,29 @@ def run(ctx):
     # ---- R1 key provenance --------------------------------------------------------------------------
     n_keys = 0
     for name, m in sorted(C.methods.items()):
-        fn = m.node
-        aliases = {"self._dict"} | {t.id for t, v, _ in A.assignments(fn) if isinstance(t, ast.Name) and A.unparse(v) == "self._dict"}
-        params = set(m.params()[1:])
-        keys = []
-        for n in A.walk(fn):
-            if isinstance(n, ast.Subscript) and A.unparse(n.value) in aliases:
-                keys.append((n.slice, n))
-            elif isinstance(n, ast.Call) and isinstance(n.func, ast.Attribute) and A.unparse(n.func.value) in aliases and n.func.attr in ("pop", "get", "setdefault", "__contains__") and n.args:
-                keys.append((n.args[0], n))
-            elif isinstance(n, ast.Compare) and len(n.ops) == 1 and isinstance(n.ops[0], (ast.In, ast.NotIn)) and A.unparse(n.comparators[0]) in aliases:
-                keys.append((n.left, n))
-        for k, node in keys:
+        for k, node in _dict_keys(m.node):
             n_keys += 1
             ok = (isinstance(k, ast.Attribute) and k.attr == "location" and isinstance(k.value, ast.Name)) or (isinstance(k, ast.Call) and dotted(k.func) == "normpath" and len(k.args) == 1)
             ctx.check("R1", m, ok, f"key:{A.unparse(k)[:30]}", f"`{A.unparse(node)[:50]}` is keyed by a normalised location",
                       f"contentsSet.{name} accesses the backing dict with key `{A.unparse(k)}`: neither an entry's .location nor normpath(path), so an unnormalised spelling (or an entry passed where a path is expected) misses", node=node)
     ctx.check("R1", C, n_keys >= 9, f"key-sites:{n_keys}", f"{n_keys} keyed accesses to contentsSet._dict inspected")
-    # two-branch form on the polymorphic accessors
+    # two-branch form on the polymorphic accessors: under `if fs.isfs_obj(p)` every access is keyed by p.location,
+    # every access outside that branch (else branch / fall-through) by normpath(p)
     for name in ("__delitem__", "discard", "__getitem__", "__contains__"):
         m = C.methods.get(name)
         ctx.require(m is not None, f"contentsSet.{name} vanished")
-        p = m.params()[1]
-        ifs = [n for n in A.body_walk(m.node) if isinstance(n, ast.If) and A.unparse(n.test) == f"fs.isfs_obj({p})"]
-        ok = len(ifs) == 1 and f"{p}.location" in A.unparse(ifs[0].body[0]) and f"normpath({p})" in A.unparse(m.node).split(A.unparse(ifs[0].body[0]))[-1]
+        E = {"p": m.params()[1]}
+        ifs = [n for n in A.body_walk(m.node) if isinstance(n, ast.If) and M.pat("fs.isfs_obj($p)").matches(n.test, E)]
+        ok = len(ifs) == 1
+        if ok:
+            inside = {id(x) for st in ifs[0].body for x in ast.walk(st)}
+            keys = _dict_keys(m.node)
+            as_entry = [k for k, n in keys if id(n) in inside]
+            as_path = [k for k, n in keys if id(n) not in inside]
+            ok = bool(as_entry) and bool(as_path) and all(M.pat("$p.location").matches(k, E) for k in as_entry) and all(M.pat("normpath($p)").matches(k, E) for k in as_path)
         ctx.check("R1", m, ok, "entry-or-path", f"{name} accepts an entry (keyed by .location) or a path (keyed by normpath)")
     ck = P.func(MOD, "check_instance")
-    ctx.check("R1", ck, "return (obj.location, obj)" in A.unparse(ck.node), "init-keyed-by-location", "initial entries are keyed by their location")
+    ctx.check("R1", ck, M.has(ck.node, "return ($o.location, $o)", {"o": ck.params()[0]}), "init-keyed-by-location", "initial entries are keyed by their location")
     ctx.floor("R1", 14)
 
     # ---- R2 argument conversion ----------------------------------------------------------------------
@@ -56,10 +90,13 @@ def run(ctx):
     ctx.check("R2", ll, ok, "passthrough-only-contentsSet", "only another contentsSet (whose membership test normalises) is used as is",
               f"_location_lookup passes `{A.unparse(passthrough[0].test) if passthrough else '?'}` through unconverted: a builtin set of entries or of unnormalised paths is then tested against location strings and never matches", node=ll.node)
     rets = A.returns(ll.node)
-    ctx.check("R2", ll, any("set(cls._convert_loc(" in A.unparse(r) for r in rets), "converts-rest", "every other iterable is converted to a set of normalised locations")
+    ctx.check("R2", ll, any(M.has(r, "set(cls._convert_loc($o))", {"o": ll.params()[1]}) for r in rets), "converts-rest", "every other iterable is converted to a set of normalised locations")
     cv = C.methods["_convert_loc"]
-    t = A.unparse(cv.node)
-    ctx.check("R2", cv, "yield x.location" in t and "yield normpath(x)" in t, "convert-normalises", "_convert_loc maps entries to .location and paths through normpath",
+    loops = M.find(cv.node, "for $x in $it:\n    ...", {"it": cv.params()[0]})
+    yields = [n for n in A.walk(cv.node) if isinstance(n, (ast.Yield, ast.YieldFrom))]
+    ok = len(loops) == 1 and M.has(loops[0].node, "yield $x.location", loops[0].env) and M.has(loops[0].node, "yield normpath($x)", loops[0].env)
+    ok = ok and all(isinstance(y, ast.Yield) and y.value is not None and (M.pat("$x.location").matches(y.value, loops[0].env) or M.pat("normpath($x)").matches(y.value, loops[0].env)) for y in yields)
+    ctx.check("R2", cv, ok, "convert-normalises", "_convert_loc maps entries to .location and paths through normpath",
               "_convert_loc yields path strings unnormalised", node=cv.node)
     for name in ("difference", "intersection_update", "issubset", "isdisjoint"):
         m = C.methods[name]
@@ -71,28 +108,45 @@ def run(ctx):
                   f"contentsSet.{name} tests locations against the raw argument `{p}`: entries and unnormalised paths in a foreign iterable never match", node=m.node)
         for n in tests:
             l = A.unparse(n.left)
-            ctx.check("R2", m, l == "x.location" or (l == "x" and "for x in self._dict" in A.unparse(m.node)), f"tests-location:{l}", f"{name}: what is tested is a location string")
+            # what is tested: the .location of one of self's entries, or one of the backing dict's keys
+            if isinstance(n.left, ast.Attribute) and n.left.attr == "location" and isinstance(n.left.value, ast.Name):
+                it = _binder_iter(n, n.left.value.id)
+                ok = it is not None and A.unparse(it) == "self"
+            elif isinstance(n.left, ast.Name):
+                it = _binder_iter(n, n.left.id)
+                ok = it is not None and A.unparse(it) == "self._dict"
+            else:
+                ok = False
+            ctx.check("R2", m, ok, f"tests-location:{l}", f"{name}: what is tested is a location string")
     m = C.methods["intersection"]
-    t = A.unparse(m.node)
-    ctx.check("R2", m, "for x in other if x in self" in t and "x if fs.isfs_obj(x) else self[x]" in t, "intersection-via-contains", "intersection goes through the normalising __contains__/__getitem__")
+    E = {"o": m.params()[1]}
+    ctx.check("R2", m, M.has(m.node, "($x if fs.isfs_obj($x) else self[$x] for $x in $o if $x in self)", E), "intersection-via-contains", "intersection goes through the normalising __contains__/__getitem__")
     m = C.methods["issuperset"]
-    ctx.check("R2", m, "all((x in self for x in other))" in A.unparse(m.node), "issuperset-via-contains", "issuperset goes through the normalising __contains__")
+    E = {"o": m.params()[1]}
+    ctx.check("R2", m, M.has(m.node, "all(($x in self for $x in $o))", E), "issuperset-via-contains", "issuperset goes through the normalising __contains__")
     m = C.methods["difference_update"]
-    ctx.check("R2", m, "if x in self" in A.unparse(m.node) and "rem(x)" in A.unparse(m.node), "difference-update-via-contains", "difference_update goes through the normalising __contains__/remove")
+    E = {"o": m.params()[1]}
+    ok = M.has(m.node, "$rem = self.remove\nfor $x in $o:\n    if $x in self:\n        $rem($x)", E) or M.has(m.node, "for $x in $o:\n    if $x in self:\n        self.remove($x)", E)
+    ctx.check("R2", m, ok, "difference-update-via-contains", "difference_update goes through the normalising __contains__/remove")
     m = C.methods["remove"]
-    ctx.check("R2", m, "del self[obj]" in A.unparse(m.node), "remove-via-delitem", "remove goes through the normalising __delitem__")
+    ctx.check("R2", m, M.has(m.node, "del self[$o]", {"o": m.params()[1]}), "remove-via-delitem", "remove goes through the normalising __delitem__")
     m = C.methods["union"]
-    ctx.check("R2", m, "c = contentsSet(other)" in A.unparse(m.node) and "c.update(self)" in A.unparse(m.node), "union-shape", "union = other's entries overlaid with self's, keyed by location")
+    ctx.check("R2", m, M.has(m.node, "$c = contentsSet($o)\n$c.update(self)\nreturn $c", {"o": m.params()[1]}), "union-shape", "union = other's entries overlaid with self's, keyed by location")
     m = C.methods["symmetric_difference_update"]
-    t = A.unparse(m.node)
-    ctx.check("R2", m, "if x in other" in t and "if x not in self" in t and "other = contentsSet(self._ensure_fsbase(other))" in t, "symdiff-shape", "symmetric difference: common entries found via membership on both sides; a plain iterator is materialised as a contentsSet first")
+    E = {"o": m.params()[1]}
+    ok = M.has(m.node, "for $x in self:\n    if $x in $o:\n        ...", E) and M.has(m.node, "for $y in $o:\n    if $y not in self:\n        ...", E) and M.has(m.node, "$o = contentsSet(self._ensure_fsbase($o))", E)
+    ctx.check("R2", m, ok, "symdiff-shape", "symmetric difference: common entries found via membership on both sides; a plain iterator is materialised as a contentsSet first")
     ctx.floor("R2", 16)
 
     # ---- R3 constructor funnel -------------------------------------------------------------------------
     FS = "pkgcore.fs.fs"
     base = P.cls(FS, "fsBase")
     init = base.methods["__init__"]
-    ctx.check("R3", init, "d['location'] = normpath(location)" in A.unparse(init.node), "base-normalises", "fsBase.__init__ stores normpath(location)",
+    kw = init.node.args.kwarg
+    E = {"loc": init.params()[1]}
+    if kw is not None:
+        E["d"] = kw.arg
+    ctx.check("R3", init, M.has(init.node, "$d['location'] = normpath($loc)", E), "base-normalises", "fsBase.__init__ stores normpath(location)",
               "fsBase.__init__ no longer normalises the location: every contents set key can be an unnormalised spelling", node=init.node)
     n_sub = 0
     for c in P.all_classes():
@@ -113,13 +167,12 @@ def run(ctx):
     ctx.check("R3", base, n_sub >= 5, f"entry-classes:{n_sub}", f"{n_sub} entry classes inspected")
     for cn in ("fsBase", "fsLink"):
         m = P.func(FS, f"{cn}.change_attributes")
-        t = A.unparse(m.node)
-        ctx.check("R3", m, "return self.__class__(location," in t, "change-attributes-reconstructs", f"{cn}.change_attributes rebuilds through the constructor (location re-normalised)")
+        ctx.check("R3", m, M.has(m.node, "$loc = $d.pop('location')\nreturn self.__class__($loc, ...)"), "change-attributes-reconstructs", f"{cn}.change_attributes rebuilds through the constructor (location re-normalised)")
     ctx.floor("R3", 8)
 
     # ---- R4 relocation ------------------------------------------------------------------------------------
     rw = P.func(MOD, "change_offset_rewriter")
-    orig, new = rw.params()[0], rw.params()[1]
+    orig, new, src = rw.params()[:3]
     lens = [(t_, v) for t_, v, _ in A.assignments(rw.node) if isinstance(t_, ast.Name) and any(dotted(c.func) == "len" for c in A.calls(v)) and orig in A.names_in(v) | _flow(rw, orig)]
     ctx.require(lens, "change_offset_rewriter: prefix length not found")
     lname = lens[0][0].id
@@ -129,31 +182,40 @@ def run(ctx):
     loc = [k.value for c in A.calls(rw.node) if A.call_attr(c) == "change_attributes" for k in c.keywords if k.arg == "location"]
     ctx.require(len(loc) == 1, "change_offset_rewriter: new location expression not found")
     t = A.unparse(loc[0])
-    ok = t.startswith(("npf(pjoin(", "normpath(pjoin(")) and f"pjoin({new}, x.location[{lname}:].lstrip(path_sep))" in t
+    shape = M.one(rw.node, "for $x in $src:\n    yield $x.change_attributes(location=$$np(pjoin($new, $x.location[$len:].lstrip($$sep))))", {"src": src, "new": new, "len": lname})
+    ok = shape is not None and shape.env["$np"] is loc[0].func and _resolved(rw, shape.env["$np"]) in ("normpath", "os.path.normpath") and _resolved(rw, shape.env["$sep"]) in ("os.path.sep", "os.sep", "'/'")
     ctx.check("R4", rw, ok, "new-location-shape", "new location = normpath(join(new prefix, remainder with its leading separator stripped))",
               f"new location is `{t}`: not normpath(pjoin(new, location[len(old):].lstrip(sep)))", node=loc[0])
     mod = P.module(MOD)
     ctx.check("R4", rw, A.unparse(mod.assigns["offset_rewriter"]) == "partial(change_offset_rewriter, '/')", "insert-is-relocate-from-root", "insert_offset relocates from '/'")
-    for name, frag in (("insert_offset", "offset_rewriter(offset, self)"), ("change_offset", "change_offset_rewriter(old_offset, new_offset, self)")):
+    for name, frag in (("insert_offset", "offset_rewriter($a, self)"), ("change_offset", "change_offset_rewriter($a, $b, self)")):
         m = C.methods[name]
-        ctx.check("R4", m, frag in A.unparse(m.node) and "self.clone(empty=True)" in A.unparse(m.node), "into-fresh-set", f"{name} fills a fresh set from the rewriter (keyed by the new locations)")
+        E = dict(zip("ab", m.params()[1:]))
+        ctx.check("R4", m, M.has(m.node, f"$c = self.clone(empty=True)\n$c.update({frag})\nreturn $c", E), "into-fresh-set", f"{name} fills a fresh set from the rewriter (keyed by the new locations)")
     ctx.floor("R4", 5)
 
     # ---- R5 missing directories ------------------------------------------------------------------------------
     md = C.methods["add_missing_directories"]
-    first = [v for t_, v, _ in A.assignments(md.node, "missing")]
+    # the candidate set is the variable whose members are finally added as directories (else: the one that is filtered
+    # against self / that the ancestor walk grows)
+    role = (M.one(md.node, "self.update((fs.fsDir(..., location=$x) for $x in $m))")
+            or M.one(md.node, "$m = {$x for $x in $m if $x not in self}")
+            or M.one(md.node, "while $t not in $m and $t not in self:\n    $m.add($t)"))
+    ctx.require(role is not None, "add_missing_directories: `missing` computation not found")
+    E = {"m": role["m"]}
+    first = [v for t_, v, _ in A.assignments(md.node, E["m"])]
     ctx.require(len(first) >= 2, "add_missing_directories: `missing` computation not found")
     g = first[0]
-    ok = isinstance(g, (ast.GeneratorExp, ast.ListComp, ast.SetComp)) and A.unparse(g.generators[0].iter) == "self" and not g.generators[0].ifs and A.unparse(g.elt) == "x.dirname"
+    ok = isinstance(g, (ast.GeneratorExp, ast.ListComp, ast.SetComp)) and len(g.generators) == 1 and A.unparse(g.generators[0].iter) == "self" and not g.generators[0].ifs \
+        and isinstance(g.generators[0].target, ast.Name) and M.pat("$x.dirname").matches(g.elt, {"x": g.generators[0].target.id}) is not None
     ctx.check("R5", md, ok, "seeds-from-every-entry", "the parents of ALL entries (directories included) are candidates",
               f"add_missing_directories seeds from `{A.unparse(g)}`: parents of recorded directories (an empty keepdir, a recorded intermediate dir) are never completed", node=md.node)
-    ctx.check("R5", md, A.unparse(first[1]) == "{x for x in missing if x not in self}", "only-absent", "only absent parents are missing")
+    ctx.check("R5", md, M.pat("{$x for $x in $m if $x not in self}").matches(first[1], E) is not None, "only-absent", "only absent parents are missing")
     wl = [n for n in A.body_walk(md.node) if isinstance(n, ast.While)]
-    ok = len(wl) == 1 and A.unparse(wl[0].test) == "target not in missing and target not in self" and "missing.add(target)" in A.unparse(wl[0]) and "target = os.path.dirname(target)" in A.unparse(wl[0])
+    ok = len(wl) == 1 and M.has(md.node, "for $x in $_:\n    $t = os.path.dirname($x)\n    while $t not in $m and $t not in self:\n        $m.add($t)\n        $t = os.path.dirname($t)", E)
     ctx.check("R5", md, ok, "ancestor-walk", "each missing parent's ancestors are added until one is already known")
-    t = A.unparse(md.node)
-    ctx.check("R5", md, "missing.discard('/')" in t, "root-excluded", "'/' is never added")
-    ctx.check("R5", md, "fs.fsDir(location=x" in t and "for x in missing" in t, "adds-dirs", "exactly the missing ones are added, as directories")
+    ctx.check("R5", md, M.has(md.node, "$m.discard('/')", E), "root-excluded", "'/' is never added")
+    ctx.check("R5", md, M.has(md.node, "self.update((fs.fsDir(..., location=$x) for $x in $m))", E), "adds-dirs", "exactly the missing ones are added, as directories")
     ctx.floor("R5", 5)
 
 
